@@ -187,7 +187,7 @@ def run_case(case, part):
 
     def walk(obj, cur_t, cur_v, cur_e, level, hist, tref_same):
         # copy
-        ops = [("copy",)] + (_index_exprs(len(cur_t)) if len(cur_t) <= 3 or level == 0 else _index_exprs(len(cur_t))[:12])
+        ops = [("copy",)] + ([("timeseries",)] if level <= 1 else []) + (_index_exprs(len(cur_t)) if len(cur_t) <= 3 or level == 0 else _index_exprs(len(cur_t))[:12])
         for op in ops:
             h = hist + [op]
             c2 = dict(case, chain=[list(map(lambda x: x if not isinstance(x, (np.bool_,)) else bool(x), o)) for o in h])
@@ -196,6 +196,20 @@ def run_case(case, part):
                     nxt = obj.copy()
                     nt, nv, ne = cur_t, cur_v, cur_e
                     keep_tref = tref_same
+                elif op[0] == "timeseries":
+                    # persistence: to_timeseries -> file -> from_timeseries holds the same observations (and reference epoch, if any)
+                    import os
+
+                    from .. import seams
+
+                    fn = os.path.join(seams.fresh_dir("c15"), "ts-%d.hdf5" % os.getpid())
+                    if os.path.exists(fn):
+                        os.unlink(fn)
+                    obj.to_timeseries().write(fn, path="rvdata", serialize_meta=True)
+                    nxt = type(obj).from_timeseries(fn, path="rvdata")
+                    os.unlink(fn)
+                    nt, nv, ne = cur_t, cur_v, cur_e
+                    keep_tref = tref_same and obj.t_ref is not None
                 else:
                     key, pos = _apply_index(op, len(cur_t))
                     nxt = obj[key]
@@ -210,6 +224,11 @@ def run_case(case, part):
             part.transitions += 1
             if not _check_against(nxt, nt, nv, ne, unit, cov, part, c2, "after " + repr(h)):
                 continue
+            if op[0] == "timeseries" and obj.t_ref is not None:
+                a, b = obj.t_ref, nxt.t_ref
+                if b is None or abs(float(a.tcb.mjd) - float(b.tcb.mjd)) > 1e-9:
+                    part.violation(c2, "to_timeseries -> file -> from_timeseries changed the reference epoch", expected=float(a.tcb.mjd), observed=None if b is None else float(b.tcb.mjd))
+                    continue
             if op[0] == "copy" and keep_tref:
                 # same reference epoch as the object copied
                 a, b = obj.t_ref, nxt.t_ref
@@ -221,7 +240,7 @@ def run_case(case, part):
             if level + 1 < depth:
                 # continue from the state actually reached (stored order)
                 st, sv, se = _state(nxt)
-                walk(nxt, st.tolist(), sv.tolist(), (se if cov else se.tolist()), level + 1, h, op[0] == "copy" and keep_tref)
+                walk(nxt, st.tolist(), sv.tolist(), (se if cov else se.tolist()), level + 1, h, op[0] in ("copy", "timeseries") and keep_tref)
 
     if depth > 0:
         st, sv, se = _state(d)
